@@ -913,8 +913,10 @@ def run(rep: Report, ctx: Any) -> str:
                       "the kind's macros or type strings is imported by the host header or by the kind's get_imports")
     rep.rule("R01.1b", "the literal-enum helper check_<name> is named by the same expression of the enum where it is defined, imported and "
                        "called, and imported from the module the enum is written to")
-    rep.rule("R01.2", "lazy-import placement: every function of the model class into which macros of property templates are expanded emits "
-                      "model.lazy_imports before the first of them; at module level the same imports stand under `if TYPE_CHECKING:`")
+    rep.rule("R01.2", "lazy-import placement: in every function of the model class into which macros of property templates are expanded, "
+                      "model.lazy_imports is emitted before the first of them on every path through the template (macros, partials and "
+                      "captured blocks read where they are emitted); at module level the same imports stand in the block of an "
+                      "`if TYPE_CHECKING:` line")
     rep.rule("R01.3", "evaluated annotations that can denote a lazily imported class are quoted")
     rep.rule("R01.4", "declaration order: the declaration passes of the class body partition the attributes over (default is none, required), "
                       "no pass mixes attributes with and without default, passes without default come first; positional parameters do not "
@@ -941,8 +943,10 @@ def run(rep: Report, ctx: Any) -> str:
     rep.require(mt and et, "host templates")
 
     def header_names(ti: Any) -> set[str]:
+        """names imported unconditionally by the text the template writes outside every loop (in place, in a partial it includes, in a
+        macro it expands)"""
         out: set[str] = set()
-        for f in tplq.frags(ti.tree.body):
+        for f in _TplRun(jx, ti).frags(ti.tree.body, ti):
             if f.kind == "data" and not f.loops:
                 for line in f.text.splitlines():
                     if re.match(r"\s*(from\s+\S+\s+import|import)\s", line) and not f.guards:
@@ -1060,10 +1064,14 @@ def run(rep: Report, ctx: Any) -> str:
               "class-level annotation raises NameError at import", where(ts, ts.node))
     # the annotation of additional properties, however the template names it or its parts: every place that asks the additional
     # property for its type string passes `quoted` = not a base type (or plainly true)
-    mdefs = _set_defs(mt.tree)
-    apt = [c_ for c_ in mt.tree.find_all(nodes.Call) if expr_text(_tsubst(c_.node, mdefs)) == "model.additional_properties.get_type_string"]
+    # (in whichever template - model.py.jinja, a partial it includes, a helper whose macro it expands - the question is asked)
+    apt: list[tuple[nodes.Call, dict]] = []
+    for _tn, ti_ in sorted(jx.templates.items()):
+        mdefs = _set_defs(ti_.tree)
+        apt += [(c_, mdefs) for c_ in ti_.tree.find_all(nodes.Call) if expr_text(_tsubst(c_.node, mdefs)) == "model.additional_properties.get_type_string"]
+    rep.require(apt, "a template expression that asks model.additional_properties for its type string")
     q_ok = {"(not model.additional_properties.is_base_type)", "True"}
-    rep.check(bool(apt) and all(any(k.key == "quoted" and expr_text(_tsubst(k.value, mdefs)) in q_ok for k in a_.kwargs) for a_ in apt), "R01.3",
+    rep.check(all(any(k.key == "quoted" and expr_text(_tsubst(k.value, mdefs)) in q_ok for k in a_.kwargs) for a_, mdefs in apt), "R01.3",
               "model.py.jinja::additional_property_type::quoted", "the additional-properties annotation is not quoted for non-base types",
               where=f"{PKG}/templates/model.py.jinja")
     # quoted=True puts the class name between quotes: on the paths of ModelProperty.get_type_string taken with quoted=True a text that begins
@@ -1087,9 +1095,8 @@ def run(rep: Report, ctx: Any) -> str:
     # exactly one pass, no pass can hold both an attribute without and one with a default (within a pass the order is the list's), and
     # no pass that can hold one with a default precedes a pass that can hold one without.  Conditions are compared as truth tables over
     # their atoms (and / or / not / conditional expressions / == and != between boolean-valued operands), the element spelled `•`.
-    decl = _declaration_passes(mt)
-    rep.check(bool(decl), "R01.4", "model.py.jinja::two-declaration-loops", "no declaration pass found in the class body", where=f"{PKG}/templates/model.py.jinja",
-              lhs=len(decl), rhs="at least one")
+    decl = _declaration_passes(mt, jx)
+    rep.require(bool(decl), "the loops of model.py.jinja (its macros, partials) that declare the attributes: `<element>.to_string()` written in a loop")
     if decl:
         def rel(p_: dict, atom: str) -> str:
             return atom.replace(p_["elem"], "•") if p_["elem"] else atom
@@ -1127,23 +1134,35 @@ def run(rep: Report, ctx: Any) -> str:
         pure = all(len(m_) == 1 for m_ in may)
         kinds = [next(iter(m_)) for m_ in may if len(m_) == 1]
         ordered = pure and kinds == sorted(kinds, reverse=True)  # every pass without defaults before every pass with defaults
-        same_dom = {p_["domain"] for p_ in decl} == {"model.required_properties + model.optional_properties"} and not any(p_["nested"] for p_ in decl)
+        # one list, run through by every pass (whatever the list is called: what is asked is that each of its elements is declared once)
+        same_dom = len({p_["domain"] for p_ in decl}) == 1 and not any(p_["nested"] for p_ in decl)
         rep.check(partition and ordered and same_dom, "R01.4", "model.py.jinja::declaration-order",
                   "attributes without a default are not all declared before attributes with one (attrs raises 'No mandatory attributes allowed "
                   "after an attribute with a default value' at import)", where=f"{PKG}/templates/model.py.jinja:{decl[0]['line']}",
                   lhs=[[[("" if pol else "not ") + rel(p_, expr_text(t_)) for t_, pol in site] for site in p_["sites"]] for p_ in decl],
                   rhs="passes partition the attributes; (default is none and required) first, the rest after")
-    em = jx.templates.get("endpoint_macros.py.jinja")
-    rep.require(em is not None and "arguments" in em.macros, "endpoint_macros.py.jinja::arguments")
-    arg = em.macros.get("arguments")
-    afr = list(tplq.frags(arg.body))
-    pos = [i for i, f in enumerate(afr) if f.kind == "expr" and len(f.loops) == 1 and _unparen(f.loops[0]) == "endpoint.path_parameters"
-           and f.text == f"{f.loops[0]}[*].to_string()"]
-    star = next((i for i, f in enumerate(afr) if f.kind == "data" and f.text.strip().startswith("*,")), None)
-    if pos and star is not None and pos[0] < star:
+    # a parameter list: text in which the separator `*,` is written.  Wherever it is put together (a macro, the macros it expands, a
+    # partial), the parameters written before the separator are positional; the loop over the path parameters that writes
+    # `<element>.to_string()` there writes their defaults, in path order
+    lists: list[tuple[Any, list[Any], int]] = []
+    for tn_, ti_ in sorted(jx.templates.items()):
+        run_ = _TplRun(jx, ti_)
+        for mname_, body_ in [("<top>", ti_.tree.body)] + [(m_.name, m_.body) for m_ in ti_.macros.values()]:
+            afr = list(run_.frags(body_, ti_))
+            star = next((i for i, f in enumerate(afr) if f.kind == "data" and re.search(r"(?m)^[ \t]*\*,", f.text)), None)
+            if star is not None:
+                lists.append((ti_, afr, star))
+    rep.require(lists, "a template text that writes the `*,` separator of a parameter list")
+    hit = None
+    for ti_, afr, star in lists:
+        pos = [i for i, f in enumerate(afr[:star]) if f.kind == "expr" and f.loops and _domain_text(f.loops[-1]) == "endpoint.path_parameters"
+               and f.targets[-1] and f.text == f"{f.targets[-1]}.to_string()"]
+        if pos and hit is None:
+            hit = (ti_, afr[pos[0]])
+    if hit is not None:
         rep.fail("R01.4", "endpoint_macros.py.jinja::arguments::positional-defaults",
                  "path parameters are positional and emitted through to_string(), which carries the schema default: a defaulted path parameter "
-                 "before one without default is a SyntaxError in every function of the endpoint module", where=f"{PKG}/templates/{em.name}:{afr[pos[0]].line}",
+                 "before one without default is a SyntaxError in every function of the endpoint module", where=f"{PKG}/templates/{hit[0].name}:{hit[1].line}",
                  lhs="to_string() before `*,`", rhs="no defaults, or defaulted ones last")
     # ---- R01.5 ---------------------------------------------------------------------------------------------------------------------
     rep.check(not ji.neutrality, "R01.5", "templates::lexically-neutral-blocks", f"some template block changes the lexical state: {list(ji.neutrality.values())[:2]}",
@@ -1238,9 +1257,14 @@ def _domain(n: nodes.Node) -> str:
     """text of an iterable, order-only filters removed"""
     while isinstance(n, nodes.Filter) and n.name in _ORDER_ONLY and n.node is not None and not n.args:
         n = n.node
-    t = _unparen(expr_text(n))
+    return _domain_text(expr_text(n))  # a `set` variable reads as the text of its definition
+
+
+def _domain_text(t: str) -> str:
+    """the same for the text of an iterable"""
+    t = _unparen(t)
     again = True
-    while again:  # a `set` variable reads as the text of its definition
+    while again:
         again = False
         for f in _ORDER_ONLY:
             if t.endswith("|" + f):
@@ -1268,6 +1292,7 @@ class _TplRun:
             for n in ti.tree.find_all(nodes.Import):
                 self.bound.add(n.target)
         self._lazy_target: "str | None" = None
+        self.chain: list[Any] = []  # the templates whose `include` is being expanded
         self.reset({})
         self.relevant: set[str] = set()
         self.opaque: list[str] = []
@@ -1308,6 +1333,16 @@ class _TplRun:
         return _tsubst(n, defs) if defs else n
 
     def macro_of(self, call: nodes.Call, ti: Any) -> "tuple[Any, nodes.Macro] | None":
+        """the macro a call expands: one of the template the call stands in or, in a partial, of a template that includes it (a partial
+        sees the names of the context it is included in)"""
+        for t_ in [ti] + [x for x in reversed(self.chain) if x is not ti]:
+            self.facts(t_)
+            hit = self._macro_in(call, t_)
+            if hit is not None:
+                return hit
+        return None
+
+    def _macro_in(self, call: nodes.Call, ti: Any) -> "tuple[Any, nodes.Macro] | None":
         f = call.node
         if isinstance(f, nodes.Name):
             if f.name in ti.macros:
@@ -1320,6 +1355,82 @@ class _TplRun:
             if f.attr in t2.macros:
                 return t2, t2.macros[f.attr]
         return None
+
+    # -- the text as fragments ---------------------------------------------------------------------------------------------------------
+    def frags(self, body: list[nodes.Node], ti: Any, binds: "dict[str, nodes.Node] | None" = None, guards: tuple = (), gnodes: tuple = (),
+              loops: tuple = (), depth: int = 0, targets: tuple = ()) -> Any:
+        """tplq.frags of the text a body emits, with what is written elsewhere put where it is emitted: calls of macros of the template
+        or of a helper template (parameters replaced by the arguments), `include`d partials, captured `set` blocks"""
+        self.facts(ti)
+        binds = binds or {}
+        defs = {k: [v] for k, v in binds.items()}
+
+        def sub(x: nodes.Node) -> nodes.Node:
+            return _tsubst(x, defs) if defs else x
+
+        def frag(*a: Any) -> Any:
+            fr = tplq.Frag(*a)
+            fr.targets = targets  # the elements of the enclosing loops, as the text spells them (parallel to .loops)
+            return fr
+
+        for n in body:
+            if isinstance(n, nodes.Output):
+                for c in n.nodes:
+                    if isinstance(c, nodes.TemplateData):
+                        yield frag("data", c.data, c.lineno, guards, gnodes, loops, c)
+                        continue
+                    c2 = sub(c)
+                    base = c2
+                    while isinstance(base, nodes.Filter) and base.node is not None:
+                        base = base.node
+                    if isinstance(base, nodes.Name) and base.name in self.blocks[ti.name] and depth < 4:
+                        yield from self.frags(self.blocks[ti.name][base.name].body, ti, binds, guards, gnodes, loops, depth + 1, targets)
+                        continue
+                    whole = False
+                    for call in _calls_inner_first(c2):
+                        hit = self.macro_of(call, ti)
+                        if hit is not None and depth < 4:
+                            t2, m = hit
+                            params = [a.name for a in m.args]
+                            b2: dict[str, nodes.Node] = dict(zip(params[len(params) - len(m.defaults):], m.defaults))
+                            b2.update(zip(params, call.args))
+                            b2.update({k.key: k.value for k in call.kwargs})
+                            yield from self.frags(m.body, t2, b2, guards, gnodes, loops, depth + 1, targets)
+                            whole = whole or call is base
+                    if not whole:
+                        yield frag("expr", expr_text(c2), c.lineno, guards, gnodes, loops, c2)
+            elif isinstance(n, nodes.If):
+                t = sub(n.test)
+                yield from self.frags(n.body, ti, binds, guards + ((expr_text(t), True),), gnodes + (t,), loops, depth, targets)
+                neg, gn = guards + ((expr_text(t), False),), gnodes + (t,)
+                for el in n.elif_:
+                    t2_ = sub(el.test)
+                    yield from self.frags(el.body, ti, binds, neg + ((expr_text(t2_), True),), gn + (t2_,), loops, depth, targets)
+                    neg, gn = neg + ((expr_text(t2_), False),), gn + (t2_,)
+                if n.else_:
+                    yield from self.frags(n.else_, ti, binds, neg, gn, loops, depth, targets)
+            elif isinstance(n, nodes.For):
+                it = expr_text(sub(n.iter))
+                tg = n.target.name if isinstance(n.target, nodes.Name) else ""
+                if n.test is not None:
+                    tt = sub(n.test)
+                    yield from self.frags(n.body, ti, binds, guards + ((expr_text(tt), True),), gnodes + (tt,), loops + (it,), depth, targets + (tg,))
+                else:
+                    yield from self.frags(n.body, ti, binds, guards, gnodes, loops + (it,), depth, targets + (tg,))
+                if n.else_:
+                    yield from self.frags(n.else_, ti, binds, guards, gnodes, loops, depth, targets)
+            elif isinstance(n, nodes.Include):
+                for x in ([n.template] if isinstance(n.template, nodes.Const) else list(getattr(n.template, "items", []) or [])):
+                    t2 = self.jx.templates.get(x.value) if isinstance(x, nodes.Const) and isinstance(x.value, str) else None
+                    if t2 is not None and depth < 4:
+                        self.chain.append(ti)
+                        try:
+                            yield from self.frags(t2.tree.body, t2, binds, guards, gnodes, loops, depth + 1, targets)
+                        finally:
+                            self.chain.pop()
+                        break
+            elif isinstance(n, (nodes.With, nodes.Scope, nodes.CallBlock, nodes.FilterBlock, nodes.AssignBlock)):
+                yield from self.frags(getattr(n, "body", []), ti, binds, guards, gnodes, loops, depth, targets)
 
     # -- conditions --------------------------------------------------------------------------------------------------------------------
     def stable(self, n: nodes.Node) -> bool:
@@ -1411,7 +1522,7 @@ class _TplRun:
         wrote = False
         for call in _calls_inner_first(c2):
             f = call.node
-            if isinstance(f, nodes.Getattr) and isinstance(f.node, nodes.Name) and f.node.name in self.user_alias[ti.name]:
+            if isinstance(f, nodes.Getattr) and isinstance(f.node, nodes.Name) and any(f.node.name in self.user_alias[t_.name] for t_ in [ti, *self.chain]):
                 for fn, imp, _tc, _col in S:
                     if fn is not None:
                         self.uses.setdefault(fn, []).append(imp)
@@ -1449,7 +1560,11 @@ class _TplRun:
                         self.opaque.append(f"{ti.name}:{n.lineno}: include of {expr_text(n.template)}")
                         outs |= S
                     else:
-                        outs |= self.walk(t2.tree.body, S, env, t2, binds, depth + 1)  # a partial sees the context it is included in
+                        self.chain.append(ti)
+                        try:
+                            outs |= self.walk(t2.tree.body, S, env, t2, binds, depth + 1)  # a partial sees the context it is included in
+                        finally:
+                            self.chain.pop()
                         if not (isinstance(n.template, nodes.Const)):
                             break  # of a list of candidates the first that exists is taken
                 S = outs
@@ -1498,7 +1613,7 @@ class _TplRun:
             self.marks += 1
         first = {**env, "loop.first": True}
         later = {**env, "loop.first": False}
-        for k in ("loop.index == 1", "loop.index0 == 0"):
+        for k in ("loop.index eq 1", "loop.index0 eq 0"):
             first[k], later[k] = True, False
         zero = self.walk(n.else_, S, env, ti, binds, depth) if n.else_ else S
         saved = self._lazy_target
@@ -2026,51 +2141,71 @@ class Cond:
         return bool(atom(expr_text(n)))
 
 
-def _declaration_passes(ti: Any) -> list[dict]:
+def _declaration_passes(ti: Any, jx: Any = None) -> list[dict]:
     """the passes in which the top level of the template declares attributes, in the order in which they run.  A pass is one run of a
     loop (over something other than literal constants) in which `<element>.to_string()` is emitted; its *sites* are the places that
     emit it, each with the conditions it stands under ((test, polarity), ... - variables bound to a constant or to a macro argument
     replaced by what they are bound to).  A loop over a literal tuple / list of constants is its body once per constant; a call of a
-    macro of the template is the macro's body with the arguments for the parameters."""
+    macro (of the template, or imported by name from a helper template) is the macro's body with the arguments for the parameters; an
+    `include`d partial is its text."""
     import itertools
 
     passes: dict[tuple, dict] = {}
     fresh = itertools.count()
+    facts = _TplRun(jx, ti) if jx is not None else None
+
+    def macro_of(call: nodes.Call, cur: Any) -> "tuple[Any, nodes.Macro] | None":
+        if facts is not None:
+            facts.facts(cur)
+            return facts.macro_of(call, cur)
+        f_ = call.node
+        return (cur, cur.macros[f_.name]) if isinstance(f_, nodes.Name) and f_.name in cur.macros else None
 
     def subst(n: nodes.Node, binds: dict[str, nodes.Node]) -> nodes.Node:
         return _tsubst(n, {k: [v] for k, v in binds.items()}) if binds else n
 
-    def output(c: nodes.Node, guards: tuple, loops: tuple, binds: dict[str, nodes.Node], path: tuple, depth: int) -> None:
+    def output(c: nodes.Node, guards: tuple, loops: tuple, binds: dict[str, nodes.Node], path: tuple, depth: int, cur: Any) -> None:
         c2 = subst(c, binds)
         for call in ([c2] if isinstance(c2, nodes.Call) else []) + list(c2.find_all(nodes.Call)):
             f = call.node
+            hit = macro_of(call, cur) if depth < 3 else None
             if isinstance(f, nodes.Getattr) and f.attr == "to_string" and isinstance(f.node, nodes.Name):
                 pid = next((pid for elem, pid in reversed(loops) if elem == f.node.name), None)
                 if pid is not None:
                     passes[pid]["sites"].append(guards)
-            elif isinstance(f, nodes.Name) and f.name in ti.macros and depth < 3:
-                m = ti.macros[f.name]
+            elif hit is not None:
+                cur2, m = hit
                 params = [a.name for a in m.args]
                 b2: dict[str, nodes.Node] = dict(zip(params[len(params) - len(m.defaults):], m.defaults))
                 b2.update(zip(params, call.args))
                 b2.update({k.key: k.value for k in call.kwargs})
-                walk(m.body, guards, loops, b2, path + (("call", next(fresh)),), depth + 1)
+                walk(m.body, guards, loops, b2, path + (("call", next(fresh)),), depth + 1, cur2)
 
-    def walk(body: list[nodes.Node], guards: tuple, loops: tuple, binds: dict[str, nodes.Node], path: tuple, depth: int) -> None:
+    def walk(body: list[nodes.Node], guards: tuple, loops: tuple, binds: dict[str, nodes.Node], path: tuple, depth: int, cur: Any = ti) -> None:
         for n in body:
             if isinstance(n, nodes.Output):
                 for c in n.nodes:
                     if not isinstance(c, nodes.TemplateData):
-                        output(c, guards, loops, binds, path, depth)
+                        output(c, guards, loops, binds, path, depth, cur)
+            elif isinstance(n, nodes.Include) and jx is not None and depth < 3:
+                for x in ([n.template] if isinstance(n.template, nodes.Const) else list(getattr(n.template, "items", []) or [])):
+                    t2 = jx.templates.get(x.value) if isinstance(x, nodes.Const) and isinstance(x.value, str) else None
+                    if t2 is not None:
+                        facts.chain.append(cur)
+                        try:
+                            walk(t2.tree.body, guards, loops, binds, path + (("include", next(fresh)),), depth + 1, t2)
+                        finally:
+                            facts.chain.pop()
+                        break
             elif isinstance(n, nodes.If):
                 t = subst(n.test, binds)
-                walk(n.body, guards + ((t, True),), loops, binds, path, depth)
+                walk(n.body, guards + ((t, True),), loops, binds, path, depth, cur)
                 neg = guards + ((t, False),)
                 for el in n.elif_:
                     t2 = subst(el.test, binds)
-                    walk(el.body, neg + ((t2, True),), loops, binds, path, depth)
+                    walk(el.body, neg + ((t2, True),), loops, binds, path, depth, cur)
                     neg += ((t2, False),)
-                walk(n.else_, neg, loops, binds, path, depth)
+                walk(n.else_, neg, loops, binds, path, depth, cur)
             elif isinstance(n, nodes.For):
                 it = subst(n.iter, binds)
                 consts = list(it.items) if isinstance(it, (nodes.Tuple, nodes.List)) and all(isinstance(x, nodes.Const) for x in it.items) else None
@@ -2078,18 +2213,18 @@ def _declaration_passes(ti: Any) -> list[dict]:
                     for k, x in enumerate(consts):
                         b2 = {**binds, n.target.name: x}
                         g2 = guards + (((subst(n.test, b2), True),) if n.test is not None else ())
-                        walk(n.body, g2, loops, b2, path + (("const", id(n), k),), depth)
+                        walk(n.body, g2, loops, b2, path + (("const", id(n), k),), depth, cur)
                     if not consts:
-                        walk(n.else_, guards, loops, binds, path, depth)
+                        walk(n.else_, guards, loops, binds, path, depth, cur)
                     continue
                 g2 = guards + (((subst(n.test, binds), True),) if n.test is not None else ())
                 pid = path + (("loop", id(n)),)
                 elem = n.target.name if isinstance(n.target, nodes.Name) else ""
                 passes[pid] = {"domain": _unparen(expr_text(it)), "line": n.lineno, "elem": elem, "sites": [], "nested": bool(loops)}
-                walk(n.body, g2, loops + ((elem, pid),), binds, pid, depth)
-                walk(n.else_, guards, loops, binds, path, depth)
+                walk(n.body, g2, loops + ((elem, pid),), binds, pid, depth, cur)
+                walk(n.else_, guards, loops, binds, path, depth, cur)
             elif isinstance(n, (nodes.With, nodes.Scope, nodes.CallBlock, nodes.FilterBlock, nodes.AssignBlock)):
-                walk(getattr(n, "body", []), guards, loops, binds, path, depth)
+                walk(getattr(n, "body", []), guards, loops, binds, path, depth, cur)
 
     walk(ti.tree.body, (), (), {}, (), 0)
     return [p_ for p_ in passes.values() if p_["sites"]]
